@@ -17,13 +17,26 @@ Proved so far (every world, every consistent answer sequence, any strategy):
   and of the derivation that follows a backjump is reachable (`C05_no_satisfier_panic`: the classical
   backjump argument — the conflicting incompatibility stays satisfied through resolution steps, the
   previous satisfier's level is below the satisfier's, the level-1 decision is always the root).
-Open: (1) the remaining sites (arena index, index lookup in unit_propagation, swap_indices / get_range
-bounds, merge_dependents unwraps, tree construction, the debug assertions); (2) **termination**: the model is fuelled, all theorems
-hold for every fuel, and "a bounded number of provider calls" is not proved — covered by the mirrored
-runs only (call budget 50 000, as in the repository's own tests).
+* NO PANIC AT ALL (`C05_no_panic*`): no reachable state of the coroutine is `fault (panic site)`, for every
+  site of the model (arena and index lookups, `swap_indices`/`get_range` bounds, `merge_dependents`
+  unwraps, `build_derivation_tree`'s two sites, every `debug_assert`), for every world, strategy, fuel;
+  answers consistent with the world, callbacks may fail, `choose_version` may answer outside its set.
+  With `debug = false` (release build) for every lawful version set; with `debug = true` under
+  `UnionCanon` (a union with a non-empty set is not `empty`), which `Range` has over ANY linear order
+  (`C05_range_unionCanon`) and which follows from canonical emptiness.  Without it the debug statement
+  is FALSE: `C05_no_panic_needs_canonical_union` is a lawful (pathological) version set and a 23-answer
+  run that trips `assert_ne!(term, Term::any())` in `merge_incompatibility`.
+* `Failure` is never returned to a well-behaved provider (`C05_no_failure`), and every finished run of a
+  well-behaved provider ended in `Ok`, `NoSolution` or ran out of the model's fuel (`C05_outcomes*`;
+  `protocolError` is the model's answer to an ill-typed answer, which a Rust provider cannot give).
+Open: **termination**: the model is fuelled, all theorems hold for every fuel, and "a bounded number
+of provider calls" is not proved — covered by the mirrored runs only (call budget 50 000, as in the
+repository's own tests).
 -/
 import PubgrubProofs.PSInvariant
 import PubgrubProofs.SatisfierTheory
+import PubgrubProofs.NoPanic
+import PubgrubProofs.NoPanicCex
 
 namespace Pubgrub.C05
 open Pubgrub
@@ -63,5 +76,51 @@ theorem C05_no_satisfier_panic (W : World P S V M) (hW : W.SetsValid) (debug : B
     site ≠ "add_derivation should not be called after a decision" ∧
     site ≠ "add_derivation: store[cause].get(package).unwrap()" :=
   no_satisfier_panic W hW debug fuel root rv s site h
+
+theorem C05_no_panic_unionCanon (W : World P S V M) (hW : W.SetsValid) (debug : Bool) (fuel : Nat)
+    (root : P) (rv : V) (hU : debug = true → UnionCanon S V) (s : SolverState P S V M Pr) (site : String) :
+    ¬ Reachable (E := E) W debug fuel root rv (s, .fault (.panic site)) :=
+  no_panic_unionCanon W hW debug fuel root rv hU s site
+
+theorem C05_no_panic [CanonicalEmpty S V] (W : World P S V M) (hW : W.SetsValid) (debug : Bool)
+    (fuel : Nat) (root : P) (rv : V) (s : SolverState P S V M Pr) (site : String) :
+    ¬ Reachable (E := E) W debug fuel root rv (s, .fault (.panic site)) :=
+  no_panic W hW debug fuel root rv s site
+
+theorem C05_no_panic_release (W : World P S V M) (hW : W.SetsValid) (fuel : Nat)
+    (root : P) (rv : V) (s : SolverState P S V M Pr) (site : String) :
+    ¬ Reachable (E := E) W false fuel root rv (s, .fault (.panic site)) :=
+  no_panic_release W hW fuel root rv s site
+
+theorem C05_range_unionCanon {T : Type} [LinearOrder T] [LawfulVersionSet (Range T) T] :
+    UnionCanon (Range T) T := unionCanon_range
+
+theorem C05_no_panic_needs_canonical_union :
+    ¬ (∀ (P S V M Pr E : Type) [DecidableEq P] [VersionSet S V] [DecidableEq S] [DecidableEq V]
+      [LE Pr] [DecidableLE Pr] [LawfulVersionSet S V]
+      (W : World P S V M) (hW : W.SetsValid) (debug : Bool) (fuel : Nat)
+      (root : P) (rv : V) (s : SolverState P S V M Pr) (site : String),
+      ¬ Reachable (E := E) W debug fuel root rv (s, .fault (.panic site))) :=
+  NoPanicCex.no_panic_false_without_canonicalEmpty
+
+theorem C05_no_failure (W : World P S V M) (hW : W.SetsValid) (debug : Bool) (fuel : Nat)
+    (root : P) (rv : V) (s : SolverState P S V M Pr) (msg : String) :
+    ¬ ReachableWB (E := E) W debug fuel root rv (s, .failure msg) :=
+  fun h => failure_only_out_of_set W hW debug fuel root rv s msg h
+
+theorem C05_outcomes_unionCanon (W : World P S V M) (hW : W.SetsValid) (debug : Bool) (fuel : Nat)
+    (root : P) (rv : V) (hU : debug = true → UnionCanon S V)
+    (s : SolverState P S V M Pr) (req : Request P S V M Pr E)
+    (h : ReachableWB W debug fuel root rv (s, req)) (hfin : req.isFinal = true) :
+    (∃ sel, req = .solution sel) ∨ (∃ t, req = .noSolution t) ∨ req = .fault .outOfFuel ∨
+      (∃ m, req = .protocolError m) :=
+  wellBehaved_outcomes_unionCanon W hW debug fuel root rv hU s req h hfin
+
+theorem C05_outcomes_release (W : World P S V M) (hW : W.SetsValid)
+    (fuel : Nat) (root : P) (rv : V) (s : SolverState P S V M Pr) (req : Request P S V M Pr E)
+    (h : ReachableWB W false fuel root rv (s, req)) (hfin : req.isFinal = true) :
+    (∃ sel, req = .solution sel) ∨ (∃ t, req = .noSolution t) ∨ req = .fault .outOfFuel ∨
+      (∃ m, req = .protocolError m) :=
+  wellBehaved_outcomes_release W hW fuel root rv s req h hfin
 
 end Pubgrub.C05
